@@ -645,3 +645,100 @@ func TestGetConcurrencyLimit(t *testing.T) {
 		}
 	}
 }
+
+// TestBatchRefusals: one POST carrying several alerts of which more than one is refused by the per-name
+// limit, next to a re-send of an admitted alert and a new alert of another name - with and without the
+// feature flag that adds the alert name to the refusal counter. "every refusal ... is reported (error
+// response or counter), never silent", and a refusal never costs the other alerts of the batch their place.
+func TestBatchRefusals(t *testing.T) {
+	run := vf.Cur()
+	sub := run.Sub("batch-refusals", "real app in virtual time, per-alert-name limit N in {1,2,3}, feature flag alert-names-in-metrics on in half of the cases; the name is filled with N alerts; then ONE POST carries 2-4 further alerts of that name (to be refused), a re-send of an admitted one with a new end, and a new alert of another name, in random order: the request must be answered (no panic), alertmanager_alerts_limited_total must grow by exactly the number of refused alerts, GET /alerts shows the N admitted ones (the re-sent one with its new end) plus the alert of the other name and none of the refused; non-trivial = >=2 alerts of the batch were refused; distinct by (seed)", 20)
+	n := run.N(60, 4000)
+	vf.Parallel(t, n, 16, func(t *testing.T, i int) {
+		r := sub.Rand(i)
+		N := 1 + r.Intn(3)
+		features := ""
+		if i%2 == 0 {
+			features = "alert-names-in-metrics"
+		}
+		dir := sysrun.ScratchDir("C18", "batch", i)
+		defer os.RemoveAll(dir)
+		synctest.Test(t, func(t *testing.T) {
+			in, err := sim.Start(sim.Options{ConfigYAML: simpleConfig().YAML(), Dir: dir, PerAlertNameLimit: N, Features: features})
+			if err != nil {
+				sub.Inconclusive("start: " + err.Error())
+				return
+			}
+			defer in.Stop()
+			far := time.Now().Add(2 * time.Hour)
+			var admittedKeys []model.Labels
+			for k := 0; k < N; k++ {
+				l := model.Labels{"alertname": "A", "instance": fmt.Sprintf("i%d", k)}
+				if code, body := in.PostAlerts(sim.PostableAlert{Labels: l, EndsAt: &far}); code != 200 {
+					sub.Inconclusive(fmt.Sprintf("POST -> %d %s", code, body))
+					return
+				}
+				admittedKeys = append(admittedKeys, l)
+				time.Sleep(time.Millisecond)
+			}
+			before := in.Metric("alertmanager_alerts_limited_total", nil)
+			extra := 2 + r.Intn(3)
+			newEnd := far.Add(17 * time.Minute)
+			resend := admittedKeys[r.Intn(len(admittedKeys))]
+			other := model.Labels{"alertname": "B", "instance": "b0"}
+			batch := []sim.PostableAlert{{Labels: resend, EndsAt: &newEnd}, {Labels: other, EndsAt: &far}}
+			refusedKeys := map[string]bool{}
+			for k := 0; k < extra; k++ {
+				l := model.Labels{"alertname": "A", "instance": fmt.Sprintf("x%d", k)}
+				refusedKeys[l.Key()] = true
+				batch = append(batch, sim.PostableAlert{Labels: l, EndsAt: &far})
+			}
+			r.Shuffle(len(batch), func(a, b int) { batch[a], batch[b] = batch[b], batch[a] })
+			w := map[string]any{"seed": sub.Seed(i), "limit": N, "features": features, "refused_in_batch": extra}
+			var code int
+			var pan any
+			func() {
+				defer func() { pan = recover() }()
+				code, _ = in.PostAlerts(batch...)
+			}()
+			if pan != nil {
+				w["panic"] = fmt.Sprint(pan)
+				sub.Violation("post-with-several-refused-alerts-panics", w)
+				return
+			}
+			time.Sleep(time.Millisecond)
+			delta := in.Metric("alertmanager_alerts_limited_total", nil) - before
+			w["response_code"], w["counter_delta"] = code, delta
+			if int(delta) != extra {
+				sub.Violation("refusals-not-counted-one-by-one", w)
+				return
+			}
+			_, got := in.GetAlerts("")
+			seen := map[string]time.Time{}
+			for _, ga := range got {
+				seen[ga.Labels.Key()] = ga.EndsAt
+			}
+			for k := range refusedKeys {
+				if _, ok := seen[k]; ok {
+					w["alert"] = k
+					sub.Violation("alert-admitted-beyond-the-per-name-limit", w)
+					return
+				}
+			}
+			for _, l := range append(admittedKeys, other) {
+				if _, ok := seen[l.Key()]; !ok {
+					w["alert"] = l.Key()
+					sub.Violation("alert-of-the-batch-lost-next-to-refused-ones", w)
+					return
+				}
+			}
+			if e := seen[resend.Key()]; !e.Truncate(time.Millisecond).Equal(newEnd.Truncate(time.Millisecond)) {
+				w["alert"] = resend.Key()
+				sub.Violation("re-send-of-an-admitted-alert-not-applied-next-to-refused-ones", w)
+				return
+			}
+			sub.Count("refusals", int64(extra))
+			sub.Case(vf.Digest(sub.Seed(i)), extra >= 2)
+		})
+	})
+}
